@@ -14,7 +14,7 @@ import "strings"
 //   - C08 "failing that, the unique wildcard statement … the choice does not depend on statement order": uniqueness of scopes,
 //     the wildcard included, is what document validation guarantees (C09 scope/*).
 //   - C14 "a read that starts after a write has returned does not yield a bundle older than that write": Set reports success
-//     only after the entry was written (C15 set/write-error, set/writes-marshalled-entry).
+//     only after the entry was written (C15 set/write-error; what bytes are written stays with C15).
 func init() {
 	alsoRun["C01"] = append(alsoRun["C01"], func(c *Ctx) {
 		c.importObls("C07", runC07, "blob/generator/", func(k string) bool { return k == "blob-descriptor/generator-body" })
@@ -31,7 +31,7 @@ func init() {
 		c.MinCount("validated/scope/", 4, "scope uniqueness obligations of document validation")
 	})
 	alsoRun["C14"] = append(alsoRun["C14"], func(c *Ctx) {
-		c.importObls("C15", runC15, "durable/", func(k string) bool { return k == "set/write-error" || k == "set/writes-marshalled-entry" })
-		c.MinCount("durable/set/", 2, "Set succeeds only after the entry was written")
+		c.importObls("C15", runC15, "durable/", func(k string) bool { return k == "set/write-error" })
+		c.MinCount("durable/set/", 1, "Set succeeds only after the entry was written")
 	})
 }
